@@ -305,6 +305,8 @@ func (r *DenseReal64Matrix) MdotM(a, b ConstMatrix) Matrix {
     t3 := r.tmp1[0:n]
     for j := 0; j < m; j++ {
       for i := 0; i < n; i++ {
+        // forget value and derivative order of the previous element
+        t2.Alloc(0, 0)
         t2.Reset()
         for k := 0; k < m1; k++ {
           t1.Mul(a.ConstAt(i, k), b.ConstAt(k, j))
@@ -320,6 +322,8 @@ func (r *DenseReal64Matrix) MdotM(a, b ConstMatrix) Matrix {
     t3 := r.tmp2[0:m]
     for i := 0; i < n; i++ {
       for j := 0; j < m; j++ {
+        // forget value and derivative order of the previous element
+        t2.Alloc(0, 0)
         t2.Reset()
         for k := 0; k < m1; k++ {
           t1.Mul(a.ConstAt(i, k), b.ConstAt(k, j))
@@ -353,6 +357,8 @@ func (r *DenseReal64Matrix) MDOTM(a, b *DenseReal64Matrix) Matrix {
     t3 := r.tmp1[0:n]
     for j := 0; j < m; j++ {
       for i := 0; i < n; i++ {
+        // forget value and derivative order of the previous element
+        t2.Alloc(0, 0)
         t2.Reset()
         for k := 0; k < m1; k++ {
           t1.MUL(a.AT(i, k), b.AT(k, j))
@@ -368,6 +374,8 @@ func (r *DenseReal64Matrix) MDOTM(a, b *DenseReal64Matrix) Matrix {
     t3 := r.tmp2[0:m]
     for i := 0; i < n; i++ {
       for j := 0; j < m; j++ {
+        // forget value and derivative order of the previous element
+        t2.Alloc(0, 0)
         t2.Reset()
         for k := 0; k < m1; k++ {
           t1.MUL(a.AT(i, k), b.AT(k, j))
